@@ -12,6 +12,7 @@ Statements (all paths root-relative):
   ["always"] ["ext", name] ["failflag", name, code] ["fail", code] ["work", k] ["err", file]
   ["failflag_direct", name, code]   like failflag, but the failing script first scribbles over its target ($1) itself
   ["out", "stdout"|"file"] ["stamp"] ["stampif", flag]   (redo-stamp only while $RV_CTL/stampflag.<flag> exists)
+  ["stampgate", k]           { gate k; output; } | redo-stamp  (the producer of redo-stamp's input sits at a gate)
   ["stampsrc", path]         redo-stamp unless source `path` currently holds its variant 1
   ["usermod"]                while the script runs, "the user" replaces the target file by hand (iff $RV_CTL/usermod.<flag>
                              exists, flag = target with / -> _); content "concurrent <target>\n", fresh inode
@@ -115,6 +116,10 @@ def render_do(dofile, spec):
             L.append("v_out %s" % st[1])
         elif k == "stamp":
             L.append("v_stamp")
+        elif k == "stampgate":
+            # redo-stamp fed through a producer that the harness holds at gate st[1]: redo-stamp has started and waits
+            # for its input for as long as the harness wants
+            L.append("v_stamp_gated %s" % shq(str(st[1])))
         elif k == "stampif":
             L.append("v_stampif %s" % shq(st[1]))
         elif k == "stampsrc":
